@@ -142,11 +142,27 @@ def run_property(pid, module, tier="quick", repo="/repo", replay=None, write_evi
             resource.setrlimit(resource.RLIMIT_AS, (cap, hard))
     except Exception:
         pass
+    class _Budget(Exception):
+        pass
+
+    def _alarm(_sig, _frm):
+        raise _Budget()
+    budget = int(os.environ.get("VERIF_TIME_S", "1800" if tier == "thorough" else "300"))
+    old_handler = None
+    try:
+        import signal
+        old_handler = signal.signal(signal.SIGALRM, _alarm)
+        signal.alarm(budget)
+    except Exception:
+        old_handler = None
     try:
         prog = Program(repo)
         ctx = Ctx(prog, R, tier)
         module.run(ctx)
         R.stat("files_parsed", len(prog.files))
+    except _Budget:
+        # an evaluation that does not end (or explodes in time) on this tree is an analysis error, never a pass and never a hang
+        R.error("engine", "time limit: the evaluation of this tree does not finish within the analysis time budget (%d s)" % budget)
     except AnalysisError as e:
         R.error("anchor", str(e))
     except RecursionError as e:
@@ -157,6 +173,13 @@ def run_property(pid, module, tier="quick", repo="/repo", replay=None, write_evi
         tb = traceback.format_exc()
         R.error("engine", "%s: %s | %s" % (type(e).__name__, e, tb.strip().splitlines()[-3:]))
 
+    try:
+        import signal
+        signal.alarm(0)
+        if old_handler is not None:
+            signal.signal(signal.SIGALRM, old_handler)
+    except Exception:
+        pass
     known = [k for k in load_known() if k.get("property") == pid]
     fails = [o for o in R.obs if not o.ok]
     for o in fails:
